@@ -285,6 +285,7 @@ class ManagementEnforcer(InternalEnforcer):
 
     def remove_named_grouping_policies(self, ptype, rules):
         """removes role inheritance rules from the current named policy."""
+        rules = list(rules)  # the caller may hand in the very list get_grouping_policy() returned
         rules_removed = self._remove_policies("g", ptype, rules)
 
         if self.auto_build_role_links and rules_removed:
